@@ -582,6 +582,14 @@ class Gen:
         rng = self.rng
         # constants first (their values must be known to choose sensible operands); values are unique per definition
         for st, attr, kind, site in self.slots:
+            if kind == "constval" and rng.random() < self.k.get("p_label_const", 0.0) and not getattr(st.d, "in_if", False):
+                # a constant (or a variable that is defined once) whose value is the address of a label, possibly of one that is
+                # defined further down: it keeps moving for as long as the label does. It has no value the generator knows.
+                lab = self.pick_ref(site, ("label",))
+                if lab is not None:
+                    st.expr = ("ref", lab, None) if rng.random() < 0.6 else ("bin", rng.choice(["+", "-"]), ("ref", lab, None), self.num(rng.randrange(1, 9)))
+                    st.as_var = rng.random() < 0.5
+                    continue
             if kind == "constval":
                 v = next(self.const_val) * rng.choice([1, 1, 1, 7]) % 60000 + 1
                 while v in getattr(self, "_cv", set()):
